@@ -347,10 +347,70 @@ def r104(ctx, fx):
         ctx.fail_closed(rid, "fewer than 4 functions that walk a hash map / set with `for` found (%d)" % n)
 
 
+RUN_DEPENDENT = {
+    "a hash of this process (std's RandomState is seeded anew for every process)": ("::hasher", "BuildHasher::hash_one", "BuildHasher::build_hasher", "RandomState::new",
+                                                                                  "RandomState as core::default::Default>::default"),
+    "the clock": ("SystemTime::now", "Instant::now", "SystemTime::elapsed", "Instant::elapsed"),
+    "the process / thread identity": ("process::id", "thread::current", "Thread::id"),
+    "the environment": ("env::var", "env::var_os", "env::vars", "env::vars_os", "env::temp_dir", "env::args"),
+    "an address": ("fmt::Pointer",),
+}
+# sites confirmed by reading: (function, callee suffix) -> reason
+RUN_DEPENDENT_OK = {
+}
+
+
+def r105(ctx, fx):
+    rid = ctx.rule("R10.5", "nothing that differs from one run to the next is computed on the way from the sources to the outputs: no function reachable from `mos build` "
+                   "(parse, code generation, listing, symbol file, binary writer, the build command itself) calls a process-seeded hasher (`HashMap::hasher`, "
+                   "`BuildHasher::hash_one` …), the clock, the process / thread identity, the environment or formats an address — outside a table of sites read one by "
+                   "one. Hash *order* is R10.1's subject; this is about the values")
+    cg = lib.CallGraph(fx)
+    roots = []
+    for sfx in ("mos::commands::build::build_command", "mos_core::parser::parse", "mos_core::codegen::codegen", "mos_core::io::listing::to_listing",
+                "mos_core::io::vice::to_vice_symbols", "mos_core::io::binary_writer::BinaryWriter::merge_segments", "mos_core::io::binary_writer::BinaryWriter::write_banks"):
+        f_ = fx.fn(sfx)
+        if f_ is None:
+            ctx.fail_closed(rid, "entry point %s not found" % sfx)
+        else:
+            roots.append(f_.id)
+    scope = cg.reach(roots)
+    scope = {i for i in scope if not fx.fns[i].path.lstrip("<").startswith(("mos::debugger", "mos::test_runner", "mos::lsp"))}
+    n = 0
+    seen = {}
+    for i in sorted(scope, key=lambda i: fx.fns[i].path):
+        f = fx.fns[i]
+        if "::tests::" in f.path or not f.blocks:
+            continue
+        n += 1
+        for bi, t in lib.calls(f):
+            p = lib.callee(t)[0]
+            if not p:
+                continue
+            pn = lib.norm(p)
+            for what, pats in RUN_DEPENDENT.items():
+                hit = [q for q in pats if pn.endswith(q) or q in pn and q.startswith("fmt::")]
+                if not hit:
+                    continue
+                kk = (lib.norm(f.path), hit[0])
+                seen[kk] = seen.get(kk, 0) + 1
+                key = "%s|%s#%d" % (kk[0], hit[0].rsplit("::", 1)[-1], seen[kk])
+                ok = RUN_DEPENDENT_OK.get(kk)
+                ctx.inst(rid, key, sample={"fn": f.path, "callee": pn, "line": t.get("line"), "tabled": ok})
+                if not ok:
+                    ctx.finding(rid, key, "%s, on the way from the sources to the outputs of `mos build`, takes a value from %s (`%s`): what is computed from it — a file "
+                                "name, a generated name, a byte — differs between two runs on the same sources" % (f.path.rsplit("::", 1)[-1], what, pn.rsplit("::", 2)[-2] + "::" + pn.rsplit("::", 1)[-1]),
+                                "%s:%s" % (f.file, t.get("line")))
+    ctx.inst(rid, "scope", sample={"functions_on_the_build_path": n})
+    if n < 300:
+        ctx.fail_closed(rid, "fewer than 300 functions reachable from `mos build` (%d)" % n)
+
+
 def run(ctx):
     fx = ctx.facts
+    r105(ctx, fx)
     r101(ctx, fx)
     r104(ctx, fx)
     r102(ctx, fx)
     r103(ctx, fx)
-    ctx.not_decided("nondeterminism from the environment (file system enumeration, time, thread scheduling); byte equality of outputs on concrete projects")
+    ctx.not_decided("nondeterminism from file system enumeration and thread scheduling; byte equality of outputs on concrete projects")
